@@ -400,6 +400,10 @@ def remove_block(
         cfi_directives,
     )
 
+    # Outgoing edges go first: once the incoming edges have been retargeted, a
+    # call from the block to itself would no longer name its callee.
+    _remove_outgoing_edges(cache, block)
+
     if can_remove:
         sym_target = proxy_block or next_block or prev_block
         cache.reference_cache.retarget_references(
@@ -423,8 +427,6 @@ def remove_block(
             _update_pe_safe_seh(block, next_block)
 
         _remove_alignment(block)
-
-    _remove_outgoing_edges(cache, block)
 
     _remove_aux_data_entries(block)
 
